@@ -52,6 +52,7 @@ static int* sb_end;
 static int sb_nb, sb_cur, sb_scripted;
 
 /* ------------------------------------------------------------------ interposition */
+__attribute__((no_sanitize("address", "undefined")))
 long syscall(long nr, ...) {
   static long (*real)(long, ...);
   va_list ap;
@@ -462,7 +463,7 @@ int main(void) {
       uv_run(&loop, UV_RUN_NOWAIT);   /* registers libuv's own wakeup watcher */
       started = 1;
       logging = 1;
-      printf("cfg ring=%d internal=%u nw=%u\n", uv__get_internal_fields(&loop)->ctl.ringfd != -1,
+      printf("cfg ring=%d internal=%u nw=%u\n", ((uv__loop_internal_fields_t*) loop.internal_fields)->ctl.ringfd != -1,
              loop.nfds, loop.nwatchers);
       continue;
     }
